@@ -100,7 +100,7 @@ t = threading.Thread(target=robot.startCompetition, daemon=True); t.start()
 cnt = lambda l, e: sum(1 for x in l if x[0] == e)
 pump(lambda l: cnt(l, "disabledPeriodic") >= 2, "first disabled iterations")
 seq, cur = ["disabled"], "disabled"
-for _ in range(int(os.environ.get("MODES_STEPS", "30"))):
+for _ in range(int(os.environ.get("MODES_STEPS", "30")) * int(os.environ.get("VERIF_SCALE", "1"))):
     nxt = rnd.choice([m for m in ("disabled", "auto", "teleop", "test") if m != cur])
     n0 = cnt(LOG, PER[nxt]); i0 = cnt(LOG, INIT[nxt])
     set_ds(nxt)
